@@ -4,6 +4,7 @@ import (
 	"bufio"
 	"fmt"
 	"io"
+	"os"
 	"os/exec"
 	"strconv"
 	"strings"
@@ -47,6 +48,16 @@ type Solver struct {
 	NSat, NUnsat, NUnknown, NErrors int
 	SolverTime                      time.Duration
 	LastError                       string
+	BytesSent                       int64
+	PrintTime                       time.Duration
+	SlowLog                         io.Writer
+	ndump                           int
+	fresh                           *Solver
+	NoFallback                      bool
+	isFresh                         bool
+	QuickMs                         int
+	NFallback                       int
+	curTimeout                      int
 	Log                             io.Writer // optional transcript
 }
 
@@ -87,6 +98,7 @@ func (s *Solver) options() {
 	switch s.Kind {
 	case "z3", "z3-new":
 		s.send(fmt.Sprintf("(set-option :timeout %d)", s.TimeoutMs))
+		s.curTimeout = s.TimeoutMs
 		if s.Seed != 0 {
 			s.send(fmt.Sprintf("(set-option :random-seed %d)", s.Seed))
 			s.send(fmt.Sprintf("(set-option :smt.random_seed %d)", s.Seed))
@@ -101,12 +113,35 @@ func (s *Solver) send(line string) {
 	if s.Log != nil {
 		fmt.Fprintln(s.Log, line)
 	}
+	s.BytesSent += int64(len(line)) + 1
 	io.WriteString(s.in, line)
 	io.WriteString(s.in, "\n")
 }
 
+// DumpQuery writes a standalone SMT-LIB file for (asserted ∧ extras).
+func (s *Solver) DumpQuery(path string, extras []*Term) {
+	var sb strings.Builder
+	for _, v := range s.ctx.Vars {
+		fmt.Fprintf(&sb, "(declare-const %s %s)\n", v.Name, v.Sort)
+	}
+	for _, n := range s.ctx.FunOrder {
+		sb.WriteString(s.ctx.Funs[n] + "\n")
+	}
+	for _, t := range s.asserted {
+		sb.WriteString("(assert " + Print(t) + ")\n")
+	}
+	for _, t := range extras {
+		sb.WriteString("(assert " + Print(t) + ")\n")
+	}
+	sb.WriteString("(check-sat)\n")
+	os.WriteFile(path, []byte(sb.String()), 0o644)
+}
+
 // Close terminates the solver process.
 func (s *Solver) Close() {
+	if s.fresh != nil {
+		s.fresh.Close()
+	}
 	if s.cmd != nil {
 		s.in.Close()
 		s.cmd.Process.Kill()
@@ -210,17 +245,87 @@ func (s *Solver) readResp(deadline time.Duration) (string, bool) {
 }
 
 // Check decides satisfiability of (asserted ∧ extras). If want is non-nil and the
-// result is Sat, the values of those variables are returned.
+// result is Sat, the values of those variables are returned. The incremental
+// process is tried first with a short timeout; if it gives up, the query is
+// re-decided from scratch by a second, non-incremental process (z3's
+// bit-blasting pipeline), which is usually far stronger on arithmetic.
 func (s *Solver) Check(extras []*Term, want []*Term) (Result, map[string]uint64) {
+	if s.fresh == nil && s.Kind != "cvc5" && !s.NoFallback {
+		s.fresh = &Solver{Kind: s.Kind, TimeoutMs: s.TimeoutMs, Seed: s.Seed, NoFallback: true, isFresh: true}
+	}
+	if s.fresh == nil {
+		return s.checkInc(extras, want, s.TimeoutMs)
+	}
+	quick := s.QuickMs
+	if quick == 0 {
+		quick = 400
+	}
+	r, m := s.checkInc(extras, want, quick)
+	if r != Unknown {
+		return r, m
+	}
+	s.NUnknown-- // not final
+	s.NFallback++
+	f := s.fresh
+	f.TimeoutMs = s.TimeoutMs
+	f.Log = s.Log
+	f.Begin(s.ctx)
+	f.declareNew()
+	for _, t := range s.asserted {
+		f.send("(assert " + Print(t) + ")")
+	}
+	f.asserted = append(f.asserted[:0], s.asserted...)
+	t0 := time.Now()
+	r, m = f.checkInc(extras, want, s.TimeoutMs)
+	s.SolverTime += time.Since(t0)
+	switch r {
+	case Sat:
+		s.NSat++
+	case Unsat:
+		s.NUnsat++
+	default:
+		s.NUnknown++
+		if f.LastError != "" {
+			s.LastError = f.LastError
+		}
+	}
+	return r, m
+}
+
+func (s *Solver) checkInc(extras []*Term, want []*Term, timeoutMs int) (Result, map[string]uint64) {
 	s.declareNew()
 	t0 := time.Now()
 	defer func() { s.SolverTime += time.Since(t0) }()
+	if s.Kind != "cvc5" && timeoutMs != s.curTimeout {
+		s.send(fmt.Sprintf("(set-option :timeout %d)", timeoutMs))
+		s.curTimeout = timeoutMs
+	}
+	if s.isFresh {
+		return s.checkOnce(extras, want, timeoutMs)
+	}
 	s.send("(push 1)")
 	for _, e := range extras {
 		s.send("(assert " + Print(e) + ")")
 	}
 	s.send("(check-sat)")
-	resp, ok := s.readResp(time.Duration(s.TimeoutMs)*time.Millisecond + 10*time.Second)
+	tq := time.Now()
+	defer func() {
+		if d := time.Since(tq); s.SlowLog != nil && d > 2*time.Second {
+			fmt.Fprintf(s.SlowLog, "SLOW QUERY %.1fs asserted=%d extras=%d\n", d.Seconds(), len(s.asserted), len(extras))
+			if dir := os.Getenv("SYMGO_DUMPSLOW"); dir != "" {
+				s.ndump++
+				s.DumpQuery(fmt.Sprintf("%s/q_%d_%d_%.0fs.smt2", dir, os.Getpid(), s.ndump+1000*s.Seed, d.Seconds()), extras)
+			}
+			for _, e := range extras {
+				p := Print(e)
+				if len(p) > 3000 {
+					p = p[:3000] + "..."
+				}
+				fmt.Fprintf(s.SlowLog, "   extra: %s\n", p)
+			}
+		}
+	}()
+	resp, ok := s.readResp(time.Duration(timeoutMs)*time.Millisecond + 10*time.Second)
 	if !ok {
 		s.NUnknown++
 		s.LastError = "solver hung or died: " + resp
@@ -273,6 +378,50 @@ func (s *Solver) Check(extras []*Term, want []*Term) (Result, map[string]uint64)
 		s.NUnknown++
 	}
 	return res, model
+}
+
+// checkOnce is the non-incremental variant: the process has just been reset and
+// loaded with the assertions; extras are asserted permanently, then check-sat.
+func (s *Solver) checkOnce(extras []*Term, want []*Term, timeoutMs int) (Result, map[string]uint64) {
+	for _, e := range extras {
+		s.send("(assert " + Print(e) + ")")
+	}
+	s.send("(check-sat)")
+	resp, ok := s.readResp(time.Duration(timeoutMs)*time.Millisecond + 10*time.Second)
+	if !ok {
+		s.LastError = "solver hung or died: " + resp
+		s.Close()
+		return Unknown, nil
+	}
+	switch {
+	case resp == "unsat":
+		return Unsat, nil
+	case resp == "sat":
+		if len(want) == 0 {
+			return Sat, nil
+		}
+		var sb strings.Builder
+		sb.WriteString("(get-value (")
+		for _, v := range want {
+			sb.WriteString(v.Name)
+			sb.WriteByte(' ')
+		}
+		sb.WriteString("))")
+		s.send(sb.String())
+		mresp, ok := s.readResp(20 * time.Second)
+		if !ok || strings.Contains(mresp, "(error") {
+			s.LastError = "get-value: " + mresp
+			s.Close()
+			return Unknown, nil
+		}
+		return Sat, parseModel(mresp)
+	case strings.Contains(resp, "(error"):
+		s.NErrors++
+		s.LastError = resp
+		s.Close()
+		return Unknown, nil
+	}
+	return Unknown, nil
 }
 
 // parseModel parses "((x #x01) (y true) ...)".
